@@ -126,6 +126,23 @@ CLAIMED = {
             "multi-task, remote-sub-task message lists that the literal lists of test_testing never have.",
             "Trusted: Parser as the second implementation, the model for counts and outcomes.",
             "DESIGN.md 3/C17"),
+    "C19": ("deterministic simulation over schedules and destination faults: real ThreadedWriter and its _reader on "
+            "sim threads, sim queue recording put order, stand-ins for the two Twisted names, stop request at a drawn "
+            "step, repeated start/stop cycles; deadlock detection for the liveness half",
+            "Seeded exploration of interleavings of 1-3 producers, the reader thread and the stop request with failure "
+            "masks on the wrapped destination over 1-3 cycles; sequence equality against the queue's put order, thread "
+            "identity, completion of stopService's deferred.",
+            "Trusted: the Twisted stand-ins in /verif/stubs (Service toggles `running`; deferToThreadPool fires when the "
+            "callable returns), SimQueue/SimThread, scheduler.",
+            "DESIGN.md 3/C19"),
+    "C20": ("deterministic simulation of damaged storage for the readers: logs produced by simulated runs, then torn, "
+            "glued, bit-flipped and spliced with foreign lines by drawn storage faults, fed to the real command entry "
+            "point and EliotFilter; per-message format check on everything the runs emitted",
+            "Seeded exploration. The command-line half is a reader facing damaged storage (fault sequences over the "
+            "stored log); the formatting half is seeded input generation over emitted messages, reported as such.",
+            "Trusted: the line classifier in props/c20.py (which also removes lines outside the quantifier), json.loads, "
+            "the field-order rule restated in check_formats.",
+            "DESIGN.md 3/C20"),
 }
 
 NOT_YET = "check not built yet in this commit (planned, see DESIGN.md section 3)"
